@@ -99,6 +99,17 @@ def get_attr(it, o, name):
                     for kk, v in k.items():
                         inst.fields[kk] = v
                 return Builtin("ast.AST.__init__", ast_init)
+        if name == "__init__" and isinstance(inst, SObj):
+            dcbase = next((c for c in mro[idx + 1:] if c.dataclass is not None and c.dataclass.get("init", True)), None)
+            if dcbase is not None:
+                # the __init__ synthesised by @dataclass for the base class
+                def dc_init(*a, **k):
+                    from .classes import _dataclass_init
+                    _dataclass_init(it, inst, dcbase, list(a), dict(k))
+                    post, _ = dcbase.lookup("__post_init__")
+                    if post is not None:
+                        it.call(post, [inst], {})
+                return Builtin("dataclass.__init__", dc_init)
         if name in ("__init__", "__post_init__", "__init_subclass__"):
             return Builtin(name, lambda *a, **k: None)
         if name in ("__setattr__",):
